@@ -102,6 +102,13 @@ def python_bytes_to_unicode(
                 e = possible_encoding.group(1)
                 if not isinstance(e, str):
                     e = str(e, 'ascii', 'replace')
+                # Python normalizes a few names, mostly for the -unix, -dos
+                # and -mac suffixes of Emacs.
+                normalized = e[:12].lower().replace('_', '-')
+                if normalized == 'utf-8' or normalized.startswith('utf-8-'):
+                    return 'utf-8'
+                if normalized.startswith(('latin-1-', 'iso-8859-1-', 'iso-latin-1-')):
+                    return 'iso-8859-1'
                 return e
             if not re.match(br'[ \t\f]*(?:#.*)?$', line):
                 break
